@@ -249,7 +249,7 @@ func (s *sim) killRun(sp *runSpec, k int) (string, bool) {
 	if !killed {
 		outcome = strings.TrimPrefix(out, "res=")
 	}
-	s.lastRevokedDelta = 1 // the child's counters died with it: let the ground truth decide
+	s.lastRevokedDelta = -1 // the child's counters died with it: unknown, the records left on disk decide
 	// a process killed before its rename leaves its temp file behind; nothing ever reads it
 	ents, _ := os.ReadDir(s.dir)
 	for _, e := range ents {
